@@ -31,11 +31,11 @@ type jkv struct {
 	v *jv
 }
 
-func jS(s string) *jv       { return &jv{k: 's', s: s} }
-func jL(s string) *jv       { return &jv{k: 'l', s: s} }
-func jA(items ...*jv) *jv   { return &jv{k: 'a', arr: items} }
-func jO(pairs ...jkv) *jv   { return &jv{k: 'o', obj: pairs} }
-func jI(n int64) *jv        { return jL(strconv.FormatInt(n, 10)) }
+func jS(s string) *jv        { return &jv{k: 's', s: s} }
+func jL(s string) *jv        { return &jv{k: 'l', s: s} }
+func jA(items ...*jv) *jv    { return &jv{k: 'a', arr: items} }
+func jO(pairs ...jkv) *jv    { return &jv{k: 'o', obj: pairs} }
+func jI(n int64) *jv         { return jL(strconv.FormatInt(n, 10)) }
 func kv(k string, v *jv) jkv { return jkv{k, v} }
 
 func jStrs(ss []string) *jv {
